@@ -105,6 +105,15 @@ func probes(c *gal.Ctx) {
 		c.Probe("C05-SINITTPMSpec-precedence", g.isPass(), fmt.Sprintf("SINITACMcomplyTPMSpec, TPM 1.2 in use, SINIT ACM with TPM capabilities 0x10 (TPM 2.0 family only): %+v", g))
 	}
 
+	// a platform without ME device: host bridge and LPC bridge only
+	{
+		ii := loadImage()
+		p := platform{Devs: []pciDev{{0, 0, 0, make([]byte, 256)}, {0, 31, 0, make([]byte, 256)}}}
+		st := runHFSTS(6, p.hw())
+		g = run3(func() (bool, error, error) { return test.BootGuardValidateME(p.hw(), &test.PreSet{Firmware: ii.img}) })
+		c.Probe(knownNoME, !st.Err && st.Word == 0 && g.isPass(), fmt.Sprintf("visible PCI devices 00:00.0 and 00:1f.0 only (no ME device): GetHFSTS6 -> %+v; test.BootGuardValidateME on the bundled image (CBnT, BPMSVN %d, KMSVN %d, KMID %d) -> %+v", st, ii.bpmsvn, ii.kmsvn, ii.kmid, g))
+	}
+
 	b := &bootguard.BootGuard{Version: bgheader.BootGuardVersion(0)}
 	g = run2(func() (bool, error) { return b.KMCryptoSecure() })
 	c.Probe("C05-BG-unknown-version-failopen", g.isPass(), fmt.Sprintf("KMCryptoSecure on BootGuard{Version: 0} (no manifests at all) returned %+v", g))
@@ -153,6 +162,7 @@ func main() {
 	genSinitTPM(c)
 	genME(c)
 	genValidateME(c)
+	genPlatforms(c)
 	genCrypto(c)
 	genSaneBPM(c)
 	genBits(c)
